@@ -116,12 +116,40 @@ theorem C36_idempotent_of_clean (T : Tables) (s : List Nat) (h : containsPii T (
     maskPii T (maskPii T s) = maskPii T s :=
   C36_unchanged T (maskPii T s) h
 
+/-- the check `passesOKB` makes of one pattern (against all tokens) -/
+def patOK (T : Tables) (p : Re × List Nat) : Bool :=
+  p.1.wf && !p.1.nullable && Gen.C36.maskOrder.all (fun t => inertB T p.1 t.2)
+
+/-- i-th pass of the generated list -/
+def nthPass (i : Nat) : Re × List Nat := Gen.C36.maskOrder.getD i (Re.eps, [])
+
 set_option maxRecDepth 100000 in
+theorem patOK_0 (T : Tables) : patOK T (nthPass 0) = true := by rfl
+set_option maxRecDepth 100000 in
+theorem patOK_1 (T : Tables) : patOK T (nthPass 1) = true := by rfl
+set_option maxRecDepth 100000 in
+theorem patOK_2 (T : Tables) : patOK T (nthPass 2) = true := by rfl
+set_option maxRecDepth 100000 in
+theorem patOK_3 (T : Tables) : patOK T (nthPass 3) = true := by rfl
+set_option maxRecDepth 100000 in
+theorem patOK_4 (T : Tables) : patOK T (nthPass 4) = true := by rfl
+set_option maxRecDepth 100000 in
+theorem patOK_5 (T : Tables) : patOK T (nthPass 5) = true := by rfl
+set_option maxRecDepth 100000 in
+theorem patOK_6 (T : Tables) : patOK T (nthPass 6) = true := by rfl
+
 /-- static facts about the generated patterns and tokens, for every choice of Unicode tables (the
     tokens are ASCII): each pattern is well-formed and cannot match the empty string; for each pattern and
     each token, the token's `[` and `]` are non-word, rejected by every class of the pattern, and the
     pattern matches nowhere inside the token. -/
-theorem gen_passesOK (T : Tables) : passesOKB T Gen.C36.maskOrder = true := by rfl
+theorem gen_passesOK (T : Tables) : passesOKB T Gen.C36.maskOrder = true := by
+  have hl : Gen.C36.maskOrder
+      = [nthPass 0, nthPass 1, nthPass 2, nthPass 3, nthPass 4, nthPass 5, nthPass 6] := rfl
+  have h : Gen.C36.maskOrder.all (patOK T) = true := by
+    rw [hl]
+    simp only [List.all_cons, List.all_nil, patOK_0, patOK_1, patOK_2, patOK_3, patOK_4, patOK_5, patOK_6,
+      Bool.and_self]
+  exact h
 
 /-- every pattern contains_pii tests has a pass in mask_pii -/
 theorem containsOrder_subset : ∀ q ∈ Gen.C36.containsOrder, ∃ t, (q, t) ∈ Gen.C36.maskOrder := by
@@ -171,14 +199,18 @@ theorem C36_failure_needs_boundary (T : Tables) (s : List Nat)
     · rw [h1] at h; cases h
     · exact absurd h2 h
 
-/-- non-vacuity of `C36_partial`: a text with an e-mail address, a phone number and an SSN satisfies the
+/-- "mail a@b.cc or 555-1234" -/
+def sampleText : List Nat := [109,97,105,108,32,97,64,98,46,99,99,32,111,114,32,53,53,53,45,49,50,51,52]
+/-- "mail [EMAIL] or [PHONE]" -/
+def sampleMasked : List Nat := [109,97,105,108,32,91,69,77,65,73,76,93,32,111,114,32,91,80,72,79,78,69,93]
+
+/-- non-vacuity of `C36_partial`: a text with an e-mail address and a phone number satisfies the
     hypothesis, and masking changes it -/
-example : maskSafe Gen.C36.tables (cps "Contact john@example.com at 555-123-4567. SSN: 123-45-6789") = true
-    ∧ ofCps (maskPii Gen.C36.tables (cps "Contact john@example.com at 555-123-4567. SSN: 123-45-6789"))
-      = "Contact [EMAIL] at [PHONE]. SSN: [SSN]" := by decide
+example : maskSafe Gen.C36.tables sampleText = true ∧ maskPii Gen.C36.tables sampleText = sampleMasked := by
+  decide +kernel
 
 /-- the witness of the counterexample violates the hypothesis, as it must -/
-example : maskSafe Gen.C36.tables witness = false := by decide
+example : maskSafe Gen.C36.tables witness = false := by decide +kernel
 
 theorem safeWithU_of_anchored (T : Tables) : ∀ (passes : List (Re × List Nat)),
     (∀ p ∈ passes, startsB p.1 = true ∧ endsB p.1 = true) → ∀ s, safeWithU T passes s = true
@@ -212,12 +244,52 @@ def fullOn (T : Tables) (s : List Nat) : Bool :=
   !containsPii T (maskPii T s) && (maskPii T (maskPii T s) == maskPii T s)
 
 set_option maxRecDepth 1000000 in
-/-- exhaustive over bare runs of the digit 5 up to length 29 (generated Unicode tables, kernel
-    evaluation): clauses 1–2 hold exactly for the runs shorter than 19 -/
-theorem C36_digit_runs : ∀ n < 30, fullOn Gen.C36.tables (List.replicate n 53) = decide (n < 19) := by
-  decide +kernel
+theorem digit_runs_a0 : ∀ n < 9, fullOn Gen.C36.tables (List.replicate n 53) = true := by decide +kernel
+set_option maxRecDepth 1000000 in
+theorem digit_runs_a1 : ∀ k < 5, fullOn Gen.C36.tables (List.replicate (9 + k) 53) = true := by decide +kernel
+theorem digit_runs_a : ∀ n < 14, fullOn Gen.C36.tables (List.replicate n 53) = true := by
+  intro n hn
+  by_cases h : n < 9
+  · exact digit_runs_a0 n h
+  · have := digit_runs_a1 (n - 9) (by omega)
+    rwa [show 9 + (n - 9) = n by omega] at this
+set_option maxRecDepth 1000000 in
+theorem digit_runs_b0 : ∀ k < 3, fullOn Gen.C36.tables (List.replicate (14 + k) 53) = true := by decide +kernel
+set_option maxRecDepth 1000000 in
+theorem digit_runs_b1 : ∀ k < 2, fullOn Gen.C36.tables (List.replicate (17 + k) 53) = true := by decide +kernel
+theorem digit_runs_b : ∀ k < 5, fullOn Gen.C36.tables (List.replicate (14 + k) 53) = true := by
+  intro k hk
+  by_cases h : k < 3
+  · exact digit_runs_b0 k h
+  · have := digit_runs_b1 (k - 3) (by omega)
+    rwa [show 17 + (k - 3) = 14 + k by omega] at this
+set_option maxRecDepth 1000000 in
+theorem digit_runs_c0 : ∀ k < 2, fullOn Gen.C36.tables (List.replicate (19 + k) 53) = false := by decide +kernel
+set_option maxRecDepth 1000000 in
+theorem digit_runs_c1 : ∀ k < 2, fullOn Gen.C36.tables (List.replicate (21 + k) 53) = false := by decide +kernel
+theorem digit_runs_c : ∀ k < 4, fullOn Gen.C36.tables (List.replicate (19 + k) 53) = false := by
+  intro k hk
+  by_cases h : k < 2
+  · exact digit_runs_c0 k h
+  · have := digit_runs_c1 (k - 2) (by omega)
+    rwa [show 21 + (k - 2) = 19 + k by omega] at this
 
-/-- non-vacuity of `C36_unchanged`: ordinary text with numbers is PII-free and is returned unchanged -/
-example : containsPii Gen.C36.tables (cps "Invoice #12345 for $100.00") = false := by decide
+/-- exhaustive over bare runs of the digit 5 up to length 22 (generated Unicode tables, kernel
+    evaluation): clauses 1–2 hold exactly for the runs shorter than 19 -/
+theorem C36_digit_runs : ∀ n < 23, fullOn Gen.C36.tables (List.replicate n 53) = decide (n < 19) := by
+  intro n hn
+  by_cases h1 : n < 14
+  · rw [digit_runs_a n h1]; exact (decide_eq_true (by omega)).symm
+  · by_cases h2 : n < 19
+    · have := digit_runs_b (n - 14) (by omega)
+      rw [show 14 + (n - 14) = n by omega] at this
+      rw [this]; exact (decide_eq_true h2).symm
+    · have := digit_runs_c (n - 19) (by omega)
+      rw [show 19 + (n - 19) = n by omega] at this
+      rw [this]; exact (decide_eq_false h2).symm
+
+/-- non-vacuity of `C36_unchanged`: "Invoice #12345 for $100.00" is PII-free (and so returned unchanged) -/
+example : containsPii Gen.C36.tables [73,110,118,111,105,99,101,32,35,49,50,51,52,53,32,102,111,114,32,36,49,48,48,46,48,48] = false := by
+  decide +kernel
 
 end Mv.Pii
